@@ -7,7 +7,10 @@ import (
 	"encoding/json"
 	"fmt"
 	"os"
+	"runtime"
 	"sort"
+	"sync/atomic"
+	"syscall"
 	"testing"
 	"time"
 
@@ -22,8 +25,8 @@ type Job struct {
 	Mode     string  `json:"mode"` // gen | serve | selftest
 	Seed     uint64  `json:"seed"`
 	From     uint64  `json:"from"`
-	To       uint64  `json:"to"`      // exclusive; 0 with Deadline>0 = until deadline
-	Stride   uint64  `json:"stride"`  // run indices From, From+Stride, ...
+	To       uint64  `json:"to"`     // exclusive; 0 with Deadline>0 = until deadline
+	Stride   uint64  `json:"stride"` // run indices From, From+Stride, ...
 	Deadline float64 `json:"deadline_s"`
 	Log      bool    `json:"log"` // print a digest line per run (determinism self-test)
 	MaxViol  int     `json:"max_viol"`
@@ -54,6 +57,28 @@ type Summary struct {
 }
 
 var out = bufio.NewWriterSize(os.Stdout, 1<<16)
+
+// watchdog: a run that makes no progress for 60 s of real time is harness trouble (exit 3 with all stacks), never a verdict.
+var lastBeat atomic.Int64
+
+func beat() { lastBeat.Store(time.Now().UnixNano()) }
+
+func startWatchdog() {
+	beat()
+	go func() {
+		for {
+			time.Sleep(2 * time.Second)
+			if time.Since(time.Unix(0, lastBeat.Load())) > 60*time.Second {
+				buf := make([]byte, 1<<22)
+				n := runtime.Stack(buf, true)
+				syscall.Write(2, []byte("WATCHDOG: no progress for 60s\n"))
+				syscall.Write(2, buf[:n])
+				fmt.Fprintf(os.Stdout, "@@ERR %q\n", "watchdog: a run made no progress for 60 s")
+				os.Exit(3)
+			}
+		}
+	}()
+}
 
 func emit(tag string, v any) {
 	b, _ := json.Marshal(v)
@@ -88,7 +113,9 @@ func TestWorker(t *testing.T) {
 		emit("SPEC", spec)
 		return
 	}
+	startWatchdog()
 	exec := func(tp *tape.Tape) *core.RunResult {
+		beat()
 		if spec.NeedsBubble {
 			return run.InBubble(t, spec, tp)
 		}
